@@ -61,10 +61,12 @@ def r_t(t):
 
 def r_quads(quads):
     by = {}
-    for s, p, o, g in quads:
-        by.setdefault(g, []).append("%s %s %s ." % (r_t(s), r_t(p), r_t(o)))
+    for q in quads:
+        s, p, o, g = q[:4]
+        blk = q[4] if len(q) > 4 else 0   # same graph, different block number -> a separate GRAPH block in the text
+        by.setdefault((g, blk), []).append("%s %s %s ." % (r_t(s), r_t(p), r_t(o)))
     out = []
-    for g, ts in by.items():
+    for (g, blk), ts in sorted(by.items(), key=lambda kv: kv[0][1]):
         if g == "d":
             out.append(" ".join(ts))
         elif g.startswith("?"):
@@ -133,7 +135,8 @@ def ref_apply(state, ops, consts, union):
 
     def inst(quads, mu, sol, default_target):
         out = []
-        for s, p, o, g in quads:
+        for q in quads:
+            s, p, o, g = q[:4]
             if g.startswith("?"):
                 gv = mu.get(g[1:])
                 gname = None
@@ -174,7 +177,8 @@ def ref_apply(state, ops, consts, union):
             if k == "deletewhere":
                 with_, using, dele, ins = None, [], op[1], None
                 where = []
-                for s, p, o, g in op[1]:
+                for q in op[1]:
+                    s, p, o, g = q[:4]
                     el = tp(s, p, o)
                     if g == "d":
                         where.append(el)
@@ -385,6 +389,16 @@ def requests(named):
                 if src == "g3" and dst == "g3":
                     continue
                 out["%s-%s-%s" % (k, src.lower(), dst.lower())] = ([[k, src, dst]], 0)
+        # one template naming the same graph in two separate GRAPH blocks (with another block in between)
+        out["insertdata-graph-twice"] = ([["insertdata", [(C(0), P, C(1), "g1", 0), (C(0), Q, C(1), "g2", 1), (C(1), P, C(0), "g1", 2)]]], 2)
+        out["deletedata-graph-twice"] = ([["deletedata", [(C(0), P, C(1), "g1", 0), (C(2), P, C(3), "g2", 1), (C(1), P, C(0), "g1", 2)]]], 4)
+        out["modify-graph-twice"] = ([["modify", None, [], [(S, P, O, "g1", 0), (S, P, O, "g2", 1), (O, P, S, "g1", 2)],
+                                       [(S, Q, O, "g2", 0), (O, Q, S, "g1", 1), (S, Q, S, "g2", 2)], [["graph", ["iri", "g1"], A]]]], 0)
+        out["deletewhere-graphvar-twice"] = ([["deletewhere", [(S, P, O, "?g", 0), (O, Q, Z, "g2", 1), (S, P, O, "?g", 2)]]], 0)
+        # deletions through a GRAPH block and insertions outside GRAPH that hit the same graph (WITH) and the same triple
+        out["with-graphvar-delete-plain-insert"] = ([["modify", "g1", [], [(S, P, O, "?g")], [(S, P, C(0), "d")], [["graph", V("g"), A]]]], 1)
+        out["with-graph-delete-plain-insert"] = ([["modify", "g1", [], [(S, P, O, "g1")], [(O, P, S, "d")], A]], 0)
+        out["plain-delete-graph-insert-same"] = ([["modify", "g1", [], [(S, P, O, "d")], [(O, P, S, "g1")], A]], 0)
         out["copy-then-clear"] = ([["copy", "g1", "g2"], ["clear", ["graph", "g1"]]], 0)
     return out
 
